@@ -110,6 +110,9 @@ func Spec(big int) []Node {
 		{Rel: "share/we[i]rd*.txt", Kind: "file", Mode: 0o644, Data: text("weird", 77)},
 		{Rel: "share/big.bin", Kind: "file", Mode: 0o644, Data: Noise(big, 7)},
 		{Rel: "share/ww.txt", Kind: "file", Mode: 0o666, Data: text("ww", 10)},
+		{Rel: "share/f5000.bin", Kind: "file", Mode: 0o644, Data: Noise(5000, 11)},
+		{Rel: "share/f1024.bin", Kind: "file", Mode: 0o644, Data: Noise(1024, 12)},
+		{Rel: "share/mut.bin", Kind: "file", Mode: 0o644, Data: Noise(3000, 13)},
 		{Rel: "link", Kind: "symlink", Target: "bin/app"},
 		{Rel: "tree", Kind: "dir", Mode: 0o755},
 		{Rel: "tree/x", Kind: "file", Mode: 0o644, Data: text("x", 40)},
